@@ -78,7 +78,7 @@ def gen_ops(rng, n, cli=True):
     return ops
 
 
-def run_probe(python, ops, env_extra=None, timeout=600):
+def run_probe(python, ops, env_extra=None, timeout=600, pyflags=()):
     """returns parsed JSON output of the probe, or {'probe_failed': ...}"""
     fd, path = tempfile.mkstemp(suffix=".json", prefix="cvss_ops_")
     os.close(fd)
@@ -92,7 +92,7 @@ def run_probe(python, ops, env_extra=None, timeout=600):
         env.pop("PYTHONHASHSEED", None)
         if env_extra:
             env.update(env_extra)
-        p = subprocess.run([python, PROBE, path], stdout=subprocess.PIPE, stderr=subprocess.PIPE, env=env, timeout=timeout,
+        p = subprocess.run([python] + list(pyflags) + [PROBE, path], stdout=subprocess.PIPE, stderr=subprocess.PIPE, env=env, timeout=timeout,
                            cwd=tempfile.gettempdir())
         if p.returncode != 0:
             return {"probe_failed": "exit %d: %s" % (p.returncode, p.stderr.decode("utf-8", "replace")[-600:])}
